@@ -237,12 +237,19 @@ func injectYields(fset *token.FileSet, f *ast.File, hit func(ast.Node) bool, min
 			for _, st := range b.List {
 				simple := false
 				switch t := st.(type) {
-				case *ast.ExprStmt, *ast.AssignStmt:
+				case *ast.ExprStmt, *ast.AssignStmt, *ast.ReturnStmt, *ast.DeclStmt, *ast.SendStmt, *ast.IncDecStmt, *ast.GoStmt, *ast.DeferStmt:
 					simple = mentions(st)
 				case *ast.IfStmt:
 					if t.Init != nil && mentions(t.Init) || mentions(t.Cond) {
 						simple = true
 					}
+				case *ast.RangeStmt:
+					// (the header of a compound statement only; its body is descended into below)
+					simple = mentions(t.X)
+				case *ast.ForStmt:
+					simple = t.Init != nil && mentions(t.Init) || t.Cond != nil && mentions(t.Cond)
+				case *ast.SwitchStmt:
+					simple = t.Init != nil && mentions(t.Init) || t.Tag != nil && mentions(t.Tag)
 				}
 				if simple {
 					label := fmt.Sprintf("%s:%d", fn.Name.Name, fset.Position(st.Pos()).Line)
